@@ -427,6 +427,7 @@ pub fn check_converged(sim: &mut Sim) -> Result<(), Fail> {
             cmp!(B, "B");
             cmp!(C, "C");
             cmp!(S, "S");
+            cmp!(Z, "Z");
             if sw.get::<X>(se).is_some() && sw.get::<Y>(se).is_some() {
                 cmp!(X, "X");
                 cmp!(Y, "Y");
